@@ -998,3 +998,42 @@ func fieldType(t types.Type, name string) types.Type {
 	}
 	return nil
 }
+
+// GammaRelation decides whether the relation rel (over r.<path> terms, as in GammaTable) holds
+// for the object o under the constraints g, for all values of the symbols.
+func (it *Interp) GammaRelation(g *lin.Ctx, o *Object, rel string) (holds bool, applicable bool) {
+	e, err := parser.ParseExpr(rel)
+	if err != nil {
+		return false, false
+	}
+	be, ok := e.(*ast.BinaryExpr)
+	if !ok {
+		return false, false
+	}
+	saved := it.G
+	it.G = g
+	defer func() { it.G = saved }()
+	l, ok1 := it.gammaTerm(o, be.X)
+	r, ok2 := it.gammaTerm(o, be.Y)
+	if !ok1 || !ok2 {
+		return false, false
+	}
+	// opaque arithmetic (period/2, sqrt(period)) is outside the linear theory: not decided here
+	syms := map[lin.Sym]bool{}
+	l.Syms(syms)
+	r.Syms(syms)
+	for sy := range syms {
+		if strings.Contains(string(sy), "(") {
+			return false, false
+		}
+	}
+	switch be.Op {
+	case token.LEQ:
+		return lin.ProveGE(g, r, l), true
+	case token.GEQ:
+		return lin.ProveGE(g, l, r), true
+	case token.EQL:
+		return lin.ProveEQ(g, l, r), true
+	}
+	return false, false
+}
